@@ -526,9 +526,12 @@ class FleetStore(Store):
             raise ValueError(f"Reserved item for {get_event} not found in store.")
 
         # 5) remove that object from ready_items by value
-        try:
-            self.ready_items.remove(assigned_item)
-        except ValueError:
+        # (by identity: flow items may compare equal without being the same object)
+        for pos, candidate in enumerate(self.ready_items):
+            if candidate is assigned_item:
+                del self.ready_items[pos]
+                break
+        else:
             raise ValueError(f"Item {assigned_item} not in ready_items.")
         self._update_time_averaged_level()
         #yield self.env.timeout(self.transit_delay)  # Simulate delay for the fleet to transport the item to the destination node
